@@ -476,8 +476,36 @@ def check_equity_sample_times(repo, rep, tier="quick"):
     rep.floor(rid, 10)
 
 
+def check_metrics_pure(repo, rep):
+    """'for every list of closed trades and daily balances the reported metrics satisfy ...': the metrics are a function of the two
+    lists handed in (and the session's start), not of an earlier computation"""
+    from vlib.purity import Purity
+    rid = "C16-R6"
+    rep.rule(rid, "effect analysis of jesse/services/metrics.py: no function of the module stores into module-level state (a memo of the "
+                  "returns frame, of a ratio) unless the key holds every used parameter whole - the number of balances or the session "
+                  "start do not identify an equity series")
+    mod = repo.module("jesse/services/metrics.py")
+    P = Purity(repo)
+    n = 0
+    for f in ast.walk(mod.tree):
+        if isinstance(f, ast.FunctionDef):
+            P._globals(mod, f)
+            n += 1
+            rep.instance(rid, f.name)
+    seen = set()
+    for f in P.findings:
+        if f.key() in seen or (f.rel, f.func) == ("jesse/helpers.py", "get_config"):
+            continue
+        seen.add(f.key())
+        rep.violation(rid, f"{f.rule}|{f.rel}:{f.func}", f"{f.rel}: {f.func}: {f.what} - the reported metrics then depend on an earlier computation, not only on the trades and balances handed in")
+    if n < 8:
+        raise AnalysisError(f"C16-R6: only {n} functions found in the metrics module")
+    rep.floor(rid, 8)
+
+
 def run(repo: Repo, rep, tier: str):
     rep.exhaustive = True
+    rep.guarded(check_metrics_pure, repo, rep)
     rep.assume("pandas is modelled for the operations metrics.trades uses (from_records, column selection, boolean row selection, len/sum/mean/min/max/to_numpy)")
     rep.guarded(check_trades, repo, rep, tier)
     rep.guarded(check_streaks_chronological, repo, rep)
